@@ -182,6 +182,108 @@ Theorem C14_option_extras :
 Proof. exact option_extras. Qed.
 Print Assumptions C14_option_extras.
 
+(* ---- the `include:` string (parse_inclusions) ---- *)
+(* Writing macro names separated by commas, with any white space around the names and any number of
+   empty items (", ,", trailing comma), includes exactly those names, in the order written. *)
+Theorem C14_include_string_split :
+  forall items : list (string * string * string),
+    Forall (fun it => let '(l, n, r) := it in
+                      all_ws l = true /\ all_ws r = true /\ (n = "" \/ clean_name n)) items ->
+    split_includes (join_includes items) = filter nonempty (map (fun it => snd (fst it)) items).
+Proof. exact split_includes_join. Qed.
+Print Assumptions C14_include_string_split.
+
+(* ---- names seen by formulas (EvaluationNamespace.field_vars) ---- *)
+(* ${{n}} evaluates to the entry of the closest scope that defines n: standard functions, then
+   variables, plugins, the fields of the current row, object names (tables, nicknames, forward
+   references), the options, and last the built-in names id / count / child_index / this /
+   today / now / fake / template. *)
+Theorem C14_name_resolution_order :
+  forall (V : Type) n (s : scopes V),
+    resolve n s =
+    pick (last_lookup n (sc_funcs s)) (pick (last_lookup n (sc_vars s))
+    (pick (last_lookup n (sc_plugins s)) (pick (last_lookup n (sc_fields s))
+    (pick (last_lookup n (sc_objects s)) (pick (last_lookup n (sc_options s))
+    (last_lookup n (sc_builtins s))))))).
+Proof. exact resolve_spec. Qed.
+Print Assumptions C14_name_resolution_order.
+
+(* The option rule as formulas see it: in a run whose options are merge_options' result, a
+   declared option n evaluates through ${{n}} to the value the user supplied (whatever it is), else
+   to its declared default - also when n is spelled like a built-in name (count, today, now, this,
+   fake, template, id, child_index) - unless a closer scope (object name, field of the current row,
+   plugin, variable, standard function) defines n; and it is never undefined. *)
+Theorem C14_option_seen_by_formula :
+  forall (V : Type) (decls : list (optdecl V)) (user plugin o : dict V) extra n d (s : scopes V),
+    merge_options decls user plugin = Ok (o, extra) -> NoDup (names plugin) ->
+    last_decl n decls = Some d -> ~ closer_defines n s ->
+    resolve n (with_options s o) =
+    match lookup n user with Some v => Some v | None => o_default d end /\
+    resolve n (with_options s o) <> None.
+Proof. exact option_seen. Qed.
+Print Assumptions C14_option_seen_by_formula.
+
+Theorem C14_option_hides_builtin :
+  forall (V : Type) n (s : scopes V) v,
+    ~ closer_defines n s -> last_lookup n (sc_options s) = Some v -> resolve n s = Some v.
+Proof. exact resolve_option_over_builtin. Qed.
+Print Assumptions C14_option_hides_builtin.
+
+(* ---- include files on disk (parse_included_file: paths, nesting, cycles) ---- *)
+(* Following include_file lines on the file system always ends: a nesting depth of (number of
+   files + 1) is never exceeded, and more fuel gives the same answer. *)
+Theorem C14_fs_fuel_sufficient :
+  forall (P F V : Type) (fs : fsys P F V) fuel p,
+    (fs_fuel fs <= fuel)%nat ->
+    fs_flatten fuel fs [] p = fs_flatten (fs_fuel fs) fs [] p /\
+    fs_flatten (fs_fuel fs) fs [] p <> Err OutOfFuel.
+Proof. exact fs_fuel_enough. Qed.
+Print Assumptions C14_fs_fuel_sufficient.
+
+(* ... and it fails only with a recipe error (Unsupported: an include_file path climbs above the
+   main recipe's directory, which the model does not describe). *)
+Theorem C14_fs_errors :
+  forall (P F V : Type) (fs : fsys P F V) main e,
+    fs_parse_recipe fs main = Err e -> e = Unsupported \/ exists k, e = DGE k.
+Proof. exact fs_parse_recipe_err. Qed.
+Print Assumptions C14_fs_errors.
+
+(* Refinement: what the files on disk contribute is what the tree of files they unfold to
+   (each include_file path resolved against the directory of the file that contains the line)
+   contributes; hence every theorem about `flatten` / `parse_recipe` on trees above
+   (C14_include_prepend, C14_include_inline_eq, C14_include_single_file) holds for recipes on disk. *)
+Theorem C14_fs_refines_tree :
+  forall (P F V : Type) (fs : fsys P F V) fuel stack p,
+    fs_flatten fuel fs stack p = (do g <- fs_tree fuel fs stack p; flatten g).
+Proof. exact fs_flatten_tree. Qed.
+Print Assumptions C14_fs_refines_tree.
+
+Theorem C14_fs_parse_recipe_tree :
+  forall (P F V : Type) (fs : fsys P F V) main g,
+    fs_tree (fs_fuel fs) fs [] main = Ok g -> fs_parse_recipe fs main = parse_recipe g.
+Proof. exact fs_parse_recipe_tree. Qed.
+Print Assumptions C14_fs_parse_recipe_tree.
+
+(* A recipe from which a file can be reached that includes itself, directly or through other
+   files, is rejected with an error - never accepted, never followed without end. *)
+Theorem C14_fs_cycle_rejected :
+  forall (P F V : Type) (fs : fsys P F V) main a,
+    clos_refl_trans _ (fs_includes fs) main a -> clos_trans _ (fs_includes fs) a a ->
+    exists e, fs_parse_recipe fs main = Err e /\ (e = Unsupported \/ exists k, e = DGE k).
+Proof. exact fs_cycle_rejected. Qed.
+Print Assumptions C14_fs_cycle_rejected.
+
+(* Only the relative layout counts: the whole tree of files moved into another directory parses
+   to the same result (an include_file path names a file relative to its includer, not relative
+   to the main recipe, the working directory or anything remembered from another run). *)
+Theorem C14_fs_relocate :
+  forall (P F V : Type) pre (fs : fsys P F V) main,
+    (forall q, In q (fs_paths fs) -> q <> []) ->
+    fs_parse_recipe fs main <> Err Unsupported ->
+    fs_parse_recipe (relocate pre fs) (pre ++ main) = fs_parse_recipe fs main.
+Proof. exact fs_parse_recipe_relocate. Qed.
+Print Assumptions C14_fs_relocate.
+
 (* ---- non-vacuity: concrete instances, closed by computation ---- *)
 Definition ex_env : menv string string :=
   [("m0", mkMacro [] [("a", "1"); ("b", "junk")] []);
@@ -219,3 +321,41 @@ Example C14_ex_options_falsy :
   /\ merge_options [mkOpt "a" (None : option oval)] [("z", VInt 1)] []
      = Err (DGE "No definition supplied for option").
 Proof. vm_compute. split; reflexivity. Qed.
+
+(* an option called `count`, a variable and a function: closest scope wins, option hides built-in *)
+Example C14_ex_names :
+  let s := mkScopes [("id", VInt 7); ("count", VInt 7); ("today", VStr "?builtin")]
+                    [("count", VInt 0); ("today", VStr "2001-02-03"); ("v", VStr "opt"); ("date", VInt 1)]
+                    [("A", VStr "?object")] [("id", VInt 7)] [] [("v", VStr "var")]
+                    [("date", VStr "?func")] in
+  resolve "count" s = Some (VInt 0) /\ resolve "today" s = Some (VStr "2001-02-03") /\
+  resolve "v" s = Some (VStr "var") /\ resolve "date" s = Some (VStr "?func") /\
+  resolve "id" s = Some (VInt 7) /\ resolve "zz" s = None.
+Proof. vm_compute. repeat split; reflexivity. Qed.
+
+(* main.yml includes sub/a.yml and lib.yml; sub/a.yml includes lib.yml (= sub/lib.yml, another
+   file) and ../lib.yml (= lib.yml); a file that includes its includer is rejected *)
+Definition ex_fs : fsys string string oval :=
+  [(["main.yml"], FsFile [["sub"; "a.yml"]; ["."; "lib.yml"]] [] [] [SVar "m" "0"]);
+   (["lib.yml"], FsFile [] [] [] [SVar "top" "1"]);
+   (["sub"; "lib.yml"], FsFile [] [] [] [SVar "sub" "2"]);
+   (["sub"; "a.yml"], FsFile [["lib.yml"]; [".."; "lib.yml"]] [] [] [SVar "a" "3"]);
+   (["loop.yml"], FsFile [["sub"; "back.yml"]] [] [] []);
+   (["sub"; "back.yml"], FsFile [[".."; "loop.yml"]] [] [] [])].
+
+Example C14_ex_fs :
+  fs_parse_recipe ex_fs ["main.yml"]
+  = Ok ([PVar "sub" "2"; PVar "top" "1"; PVar "a" "3"; PVar "top" "1"; PVar "m" "0"], [])
+  /\ fs_parse_recipe ex_fs ["loop.yml"] = Err (DGE "Include file includes itself")
+  /\ fs_parse_recipe (relocate ["x"; "y"] ex_fs) ["x"; "y"; "main.yml"] = fs_parse_recipe ex_fs ["main.yml"]
+  /\ fs_includes ex_fs ["loop.yml"] ["sub"; "back.yml"] /\ fs_includes ex_fs ["sub"; "back.yml"] ["loop.yml"].
+Proof.
+  split; [vm_compute; reflexivity|]. split; [vm_compute; reflexivity|]. split; [vm_compute; reflexivity|].
+  split; do 5 eexists; (split; [vm_compute; reflexivity|split; [cbn; auto|vm_compute; reflexivity]]).
+Qed.
+
+Example C14_ex_include_string :
+  split_includes " m1 ,m2,  , big macro ," = ["m1"; "m2"; "big macro"] /\ split_includes "" = [] /\
+  join_includes [(" ", "m1", " "); ("", "m2", ""); ("  ", "", " "); (" ", "big macro", " "); ("", "", "")]
+  = " m1 ,m2,   , big macro ,".
+Proof. vm_compute. repeat split; reflexivity. Qed.
